@@ -120,7 +120,17 @@ func (w *World) concPhase(r *rand.Rand, sid int, mut []string, readers [][]strin
 	var mu sync.Mutex
 	casCount := 0
 	pinOf := map[int][]int{} // worker -> versions pinned during its current call
-	gkvlite.VerifYieldFn = func(int) { sched.yield() }
+	gkvlite.VerifYieldFn = func(kind int) {
+		if kind == 4 && sched.active && sched.cur == 0 && r.Intn(3) == 0 {
+			// the mutator is between the two reads of itemLoc.Copy: let the flusher persist items
+			// and the readers' visits evict them before it goes on
+			if sched.stall == nil {
+				sched.stall = map[int]int{}
+			}
+			sched.stall[0] = 8 + r.Intn(60)
+		}
+		sched.yield()
+	}
 	gkvlite.VerifEventFn = func(kind int, _ uintptr) {
 		mu.Lock()
 		defer mu.Unlock()
